@@ -3,8 +3,8 @@
     that its hypotheses are satisfiable, and [Print Assumptions].
     Model: Model/Crash.v (every partial operation of the Rust code on the input paths of
     show / link / verify / dump / stats and of the argument stage is an explicit
-    Abort-returning primitive; it mirrors the tree after the repairs 0001-0007 and the argv
-    repair). Guard lemmas and proofs: Proofs/CrashProofs.v. Panic-site inventory, regenerated
+    Abort-returning primitive; it mirrors the tree after the repairs 0001-0007, the argv
+    repair and the repair of the file tree of the terminal layout). Guard lemmas and proofs: Proofs/CrashProofs.v. Panic-site inventory, regenerated
     from the anchored sources on every run: Generated/GenPanicSites.v; its classification:
     Proofs/CrashSites.v.
     What the theorems do not say (exhibited only by the fuzzing runs of tools/props/c08.py):
@@ -27,42 +27,58 @@ Theorem c08_all_sites_discharged : forallb discharged panic_sites = true.
 Proof. exact all_sites_discharged. Qed.
 
 (** torrent show (text, --json, terminal layout), for every byte string, every external
-    library behaviour, every table geometry: never a panic - outside the one known finding
-    (open: key=deep-path-terminal): in terminal layout a file path with more components than
-    the stack holds tree frames. Stated as [forall x, ~ Known x -> P x]; the witness
-    [exists x, Known x /\ ~ P x] is c08_deep_path_on_terminal_refuted below. *)
+    library behaviour, every geometry of the row labels: never a panic. The file tree of the
+    terminal layout is built, drawn and dropped by loops (src/table.rs after the repair of the
+    finding key=deep-path-terminal), so no bound on the number of path components appears. *)
 Check show_no_panic :
-  forall (url_ok node_ok : bytes -> bool) (stack_budget : N) (in_chrono_range : N -> bool) (tree_budget : N),
+  forall (url_ok node_ok : bytes -> bool) (stack_budget : N) (in_chrono_range : N -> bool),
   max_depth <= stack_budget ->
-  forall (term : bool) (ws : list N) (cs : list nat) (ps : list (list bool)) (data : bytes),
-  ~ deep_path_on_terminal url_ok node_ok tree_budget term data ->
+  forall (term : bool) (ws : list N) (data : bytes),
   alloc_ok url_ok node_ok data ->
-  finish (show_model url_ok node_ok stack_budget in_chrono_range tree_budget term ws cs ps data) <> Panic101.
+  finish (show_model url_ok node_ok stack_budget in_chrono_range term ws data) <> Panic101.
 Theorem c08_show_no_panic :
-  forall (url_ok node_ok : bytes -> bool) (stack_budget : N) (in_chrono_range : N -> bool) (tree_budget : N),
+  forall (url_ok node_ok : bytes -> bool) (stack_budget : N) (in_chrono_range : N -> bool),
   max_depth <= stack_budget ->
-  forall (term : bool) (ws : list N) (cs : list nat) (ps : list (list bool)) (data : bytes),
-  ~ deep_path_on_terminal url_ok node_ok tree_budget term data ->
+  forall (term : bool) (ws : list N) (data : bytes),
   alloc_ok url_ok node_ok data ->
-  finish (show_model url_ok node_ok stack_budget in_chrono_range tree_budget term ws cs ps data) <> Panic101.
+  finish (show_model url_ok node_ok stack_budget in_chrono_range term ws data) <> Panic101.
 Proof. exact show_no_panic. Qed.
 
 (** its hypotheses hold for a torrent with an announce list, which the model shows normally *)
 Example c08_show_hypotheses_satisfiable :
   max_depth <= max_depth /\
-  ~ deep_path_on_terminal (fun _ => true) (fun _ => true) 20000 true witness /\
   alloc_ok (fun _ => true) (fun _ => true) witness /\
-  finish (show_model (fun _ => true) (fun _ => true) max_depth (fun _ => true) 20000 true [4; 7] [2%nat] [[true]; []] witness) = Ok0.
-Proof. exact (conj (N.le_refl _) (conj witness_not_deep (conj alloc_ok_witness witness_shows))). Qed.
+  finish (show_model (fun _ => true) (fun _ => true) max_depth (fun _ => true) true [4; 7] witness) = Ok0.
+Proof. exact (conj (N.le_refl _) (conj alloc_ok_witness witness_shows)). Qed.
 
-(** the known finding is real in the model: a path deeper than the tree budget panics in
-    terminal layout and is shown normally otherwise *)
-Theorem c08_deep_path_on_terminal_refuted :
-  exists (budget : N) (data : bytes),
-    deep_path_on_terminal (fun _ => true) (fun _ => true) budget true data /\
-    finish (show_model (fun _ => true) (fun _ => true) max_depth (fun _ => true) budget true [] [] [] data) = Panic101 /\
-    finish (show_model (fun _ => true) (fun _ => true) max_depth (fun _ => true) budget false [] [] [] data) = Ok0.
-Proof. exact deep_path_refuted. Qed.
+(** the file tree of the terminal layout, for every root name and every list of paths (any
+    number of files, any number of components): the loops of the repaired code never reach a
+    partial operation that fails ([children[index]], [len - 1], [String::truncate] off a character
+    boundary), the fuel of the modelled loops suffices, and they compute exactly what the recursive
+    code before the repair computed with unlimited stack: the same tree, the same lines *)
+Check tree_insert_spec : forall (file : list bytes) (t : tree), tree_insert file t = Val (insert_spec file t).
+Theorem c08_tree_insert_is_recursive_insert :
+  forall (file : list bytes) (t : tree), tree_insert file t = Val (insert_spec file t).
+Proof. exact tree_insert_spec. Qed.
+
+Check tree_lines_spec : forall t : tree, tree_lines t = Val (lines_spec t).
+Theorem c08_tree_lines_are_recursive_lines : forall t : tree, tree_lines t = Val (lines_spec t).
+Proof. exact tree_lines_spec. Qed.
+
+Theorem c08_tree_drop_terminates : forall t : tree, tree_drop t = Val tt.
+Proof. exact tree_drop_spec. Qed.
+
+Theorem c08_directory_rows_no_panic :
+  forall (root : bytes) (files : list (list bytes)), directory_rows root files <> Abort.
+Proof. exact directory_rows_no_abort. Qed.
+
+(** a multi-file torrent with a repeated path and a file that is also a directory: shown
+    normally, and the model draws the tree `imdl --terminal torrent show` prints *)
+Example c08_tree_witness :
+  finish (show_model (fun _ => true) (fun _ => true) max_depth (fun _ => true) true [4; 7] tree_witness) = Ok0 /\
+  tree_rows (fun _ => true) (fun _ => true) tree_witness =
+    Some tree_witness_rows.
+Proof. exact tree_witness_shows. Qed.
 
 (** torrent link *)
 Check link_no_panic :
@@ -125,16 +141,21 @@ Theorem c08_magnet_topic_no_panic : forall s : bytes, finish (magnet_topic s) <>
 Proof. exact magnet_topic_no_panic. Qed.
 
 (** the guards are load-bearing: without content_size_fits (repair 0006) the sum panics, and
-    outside the range of u64 the suffix table is indexed out of bounds *)
+    outside the range of u64 the suffix table is indexed out of bounds, and cutting the tree prefix
+    inside a character panics *)
 Theorem c08_guards_are_needed :
-  (exists fs, content_size (Multiple fs) = Abort) /\ bytes_display (2 ^ 70) = Abort.
-Proof. exact (conj content_size_unguarded_panics display_unguarded_panics). Qed.
+  (exists fs, content_size (Multiple fs) = Abort) /\ bytes_display (2 ^ 70) = Abort /\ truncate seg_bar 1 = Abort.
+Proof. exact (conj content_size_unguarded_panics (conj display_unguarded_panics truncate_unguarded_panics)). Qed.
 
 Print Assumptions c08_sources_translated.
 Print Assumptions c08_all_sites_discharged.
 Print Assumptions c08_show_no_panic.
 Print Assumptions c08_show_hypotheses_satisfiable.
-Print Assumptions c08_deep_path_on_terminal_refuted.
+Print Assumptions c08_tree_insert_is_recursive_insert.
+Print Assumptions c08_tree_lines_are_recursive_lines.
+Print Assumptions c08_tree_drop_terminates.
+Print Assumptions c08_directory_rows_no_panic.
+Print Assumptions c08_tree_witness.
 Print Assumptions c08_link_no_panic.
 Print Assumptions c08_link_hypotheses_satisfiable.
 Print Assumptions c08_verify_no_panic.
